@@ -14,6 +14,7 @@ type pbuilder struct {
 	ring   []int
 	ws     []*mw
 	nextID int
+	zombie bool // the next crash of a busy worker leaves it registered (zcrash)
 }
 
 func newPB(size, cap int, fam string) *pbuilder {
@@ -107,7 +108,10 @@ func (b *pbuilder) crash(w int, exit bool) {
 	op := "crash"
 	if exit {
 		op = "exitcrash"
+	} else if b.zombie && b.ws[w].inhand {
+		op = "zcrash"
 	}
+	b.zombie = false
 	b.c.Steps = append(b.c.Steps, PStep{Op: op, W: w})
 	b.ws[w].alive, b.ws[w].inhand, b.ws[w].q = false, false, 0
 }
@@ -178,7 +182,12 @@ func genCase(r *rand.Rand) PCase {
 		case x < 80:
 			b.c.Steps = append(b.c.Steps, PStep{Op: "len"})
 		case x < 88:
-			b.crash(r.Intn(len(b.ws)), false)
+			b.zombie = r.Intn(2) == 0
+			if bs := b.busy(); b.zombie && len(bs) > 0 {
+				b.crash(bs[r.Intn(len(bs))], false)
+			} else {
+				b.crash(r.Intn(len(b.ws)), false)
+			}
 		case x < 91:
 			b.crash(r.Intn(len(b.ws)), true)
 		case x < 95:
@@ -222,6 +231,20 @@ func corpus() []PCase {
 		b.dispatch([]bool{false})
 		b.c.Steps = append(b.c.Steps, PStep{Op: "len"})
 		b.crash(0, true)
+		b.send(r, true, 1)
+		b.c.Steps = append(b.c.Steps, PStep{Op: "len"})
+		out = append(out, b.c)
+	}
+	// a worker killed inside a callback stays registered as a zombie: the next dispatch must still replace it
+	for _, size := range []int{1, 2} {
+		b := newPB(size, 1, "corpus-zombie")
+		r := rand.New(rand.NewSource(4))
+		for i := 0; i < size; i++ {
+			b.send(r, false, 1)
+		}
+		b.zombie = true
+		b.crash(0, false)
+		b.send(r, true, 1)
 		b.send(r, true, 1)
 		b.c.Steps = append(b.c.Steps, PStep{Op: "len"})
 		out = append(out, b.c)
